@@ -221,4 +221,57 @@ theorem listHit_congr_mem [LinearOrder K] (f : H → Option K) (primHit : H → 
       have e2 := hmin2 h ((hmem h).mp hh) d1 hp
       rw [le_antisymm e1 e2]
 
+section traverse
+variable {B E K G : Type}
+
+theorem traverse_elems_fold (slabE : E → K → K → Bool) (g : E → G) (rng : K × K) :
+    ∀ (es : List E) (acc : List G),
+      es.foldl (fun (st : (K × K) × List G) e =>
+        if slabE e st.1.1 st.1.2 then (st.1, g e :: st.2) else st) (rng, acc) =
+      (rng, ((es.filter (fun e => slabE e rng.1 rng.2)).map g).reverse ++ acc) := by
+  intro es
+  induction es with
+  | nil => intro acc; simp
+  | cons e es ih =>
+    intro acc
+    simp only [List.foldl_cons]
+    by_cases h : slabE e rng.1 rng.2 = true
+    · simp only [h, if_true, List.filter_cons, List.map_cons, List.reverse_cons, List.append_assoc,
+        List.singleton_append]
+      rw [ih]
+    · have h' : slabE e rng.1 rng.2 = false := by simpa using h
+      simp only [h', Bool.false_eq_true, if_false, List.filter_cons]
+      rw [ih]
+
+/-- with a callback that records the element and leaves the range alone, `TraverseIntersectingRay` visits
+    exactly what `ElementsIntersectingRay` returns, in the same order -/
+theorem traverse_eq_pruned (slabB : B → K → K → Bool) (slabE : E → K → K → Bool) (g : E → G) (rng : K × K) :
+    ∀ (t : Oct B E) (acc : List G),
+      t.traverse slabB slabE (fun e r (a : List G) => (r, g e :: a)) rng acc =
+      ((t.pruned (fun b => !slabB b rng.1 rng.2) (fun e => slabE e rng.1 rng.2)).map g).reverse ++ acc := by
+  intro t
+  induction t using Oct.induct' with
+  | h b es cs ih =>
+    intro acc
+    simp only [Oct.traverse, Oct.pruned]
+    by_cases hb : slabB b rng.1 rng.2 = true
+    · simp only [hb, Bool.not_true, Bool.false_eq_true, if_false]
+      rw [traverse_elems_fold]
+      simp only
+      have : ∀ (l : List (Oct B E)), (∀ c ∈ l, c ∈ cs) → ∀ a : List G,
+          l.foldl (fun s c => c.traverse slabB slabE (fun e r (a : List G) => (r, g e :: a)) rng s) a =
+          ((l.flatMap (fun c => c.pruned (fun b => !slabB b rng.1 rng.2) (fun e => slabE e rng.1 rng.2))).map g).reverse ++ a := by
+        intro l
+        induction l with
+        | nil => intro _ a; simp
+        | cons c l ihl =>
+          intro hl a
+          simp only [List.foldl_cons, List.flatMap_cons, List.map_append, List.reverse_append, List.append_assoc]
+          rw [ih c (hl c (by simp)), ihl (fun c' hc' => hl c' (by simp [hc']))]
+      rw [this cs (fun c hc => hc)]
+      simp only [List.map_append, List.reverse_append, List.append_assoc]
+    · have hb' : slabB b rng.1 rng.2 = false := by simpa using hb
+      simp [hb']
+end traverse
+
 end PolyVerif.Tree
